@@ -122,7 +122,7 @@ pub fn plan(prop: &str, tier: &str) -> Option<Plan> {
         "C03" => {
             let bq = if quick { 3 } else { 5 };
             b.add("rc/weak-holder", all, &[], if quick { 2 } else { 4 });
-            b.add("rc/weak-through-zero", all, &[&[("destructed", 1)], &[("destructed", 0)]], bq);
+            b.add("rc/weak-through-zero", all, &[&[("destructed", 1)], &[("destructed", 0)], &[("destructed", 2), ("pre", 2)], &[("destructed", 2), ("pre", 3)]], bq);
             b.add("rc/last-weak-vs-destruct", all, &[&[("pre", 0)], &[("pre", 2)], &[("pre", 3)]], bq);
             b.add("rc/weak-many-shares", all, &[], if quick { 2 } else { 4 });
             b.goal("rc/weak-holder", "upgrade-none");
@@ -132,12 +132,12 @@ pub fn plan(prop: &str, tier: &str) -> Option<Plan> {
         }
         "C05" => {
             let bq = if quick { 3 } else { 5 };
-            b.add("rc/upgrade-vs-attempt", all, &[&[("pre", 2)], &[("pre", 3)]], bq);
-            b.add("rc/two-upgraders", all, &[&[("pre", 2)]], if quick { 2 } else { 4 });
-            b.add("rc/upgrade-vs-cascade-child", all, &[&[("age", 4), ("pre", 2)], &[("age", 4), ("pre", 3)]], bq);
-            b.add("rc/ws-upgrade-vs-attempt", all, &[&[("pre", 2)], &[("pre", 3)]], bq);
-            b.add("rc/ws-upgrade-vs-cascade-child", all, &[&[("age", 4), ("pre", 2)]], bq);
-            b.add("rc/weak-holder", all, &[], if quick { 2 } else { 4 });
+            b.add("rc/upgrade-vs-attempt", all, &[&[("pre", 2), ("claim", 5)], &[("pre", 3), ("claim", 5)]], bq);
+            b.add("rc/two-upgraders", all, &[&[("pre", 2), ("claim", 5)]], if quick { 2 } else { 4 });
+            b.add("rc/upgrade-vs-cascade-child", all, &[&[("age", 4), ("pre", 2), ("claim", 5)], &[("age", 4), ("pre", 3), ("claim", 5)]], bq);
+            b.add("rc/ws-upgrade-vs-attempt", all, &[&[("pre", 2), ("claim", 5)], &[("pre", 3), ("claim", 5)]], bq);
+            b.add("rc/ws-upgrade-vs-cascade-child", all, &[&[("age", 4), ("pre", 2), ("claim", 5)]], bq);
+            b.add("rc/weak-holder", all, &[&[("claim", 5)]], if quick { 2 } else { 4 });
             b.goal("rc/upgrade-vs-cascade-child", "upgrade-some");
             b.goal("rc/upgrade-vs-cascade-child", "upgrade-none");
             b.goal("rc/weak-holder", "upgrade-none");
